@@ -13,7 +13,7 @@ Import ListNotations.
 From BB Require Import BN Brute SpaceFacts TrapFacts PercolateFacts AttractorFacts Diagram Invariants Checks Filter
   Strict PetriNet Control Meta FilterFacts PetriNetFacts TrappistFacts DiagramStruct DiagramSem1 DiagramCache
   DiagramDepth DiagramComplete Termination ControlFacts MetaFacts Candidates StrictFacts MinExpandFacts CandidatesFacts SymbolicTest SymbolicTestFacts Signed ReductionFacts ControlFacts2 Main Blocks BlocksFacts ObsFacts OwnerFacts CandidatesTerm
-  PartialOwner BlockMath BlockComplete ASeeds ASeedsFacts LogChecks SkipRule SkipRuleFacts Names NamesFacts Perm PermFacts SCC SCCFacts SCCStruct ControlFacts3 SCCTerm FilterSym.
+  PartialOwner BlockMath BlockComplete ASeeds ASeedsFacts LogChecks SkipRule SkipRuleFacts Names NamesFacts Perm PermFacts SCC SCCFacts SCCStruct ControlFacts3 SCCTerm FilterSym Main2 StrategyFacts ControlFacts4.
 
 Theorem C16_reclaim_transparent : forall (fuel : nat) (N : net) (cfg : config) (d : sd) (h : list op), Forall2 (fun a b : sd * result => obs_eq (fst a) (fst b) /\ snd a = snd b) (run fuel N cfg d h) (run fuel N cfg (reclaim d) h).
 Proof. exact reclaim_transparent. Qed.
@@ -36,6 +36,25 @@ Proof. exact reclaim_extends. Qed.
 Theorem C16_step_extends : forall (fuel : nat) (N : net) (cfg : config) (d : sd) (o : op), SWF N d -> extends d (fst (step fuel N cfg d o)).
 Proof. exact step_extends. Qed.
 
+(* the strategies that are not single ops: run on observationally equal diagrams they give equal results and observationally equal diagrams *)
+Theorem C16_block_expansion_blind_to_reclaim : forall (fuel : nat) (N : net) (cfg : config) (d d' : sd) (maa opt : bool) (sz : option nat) (tape : list bool), obs_eq d d' -> rel2 (expand_block fuel N cfg d maa opt sz tape) (expand_block fuel N cfg d' maa opt sz tape).
+Proof. exact expand_block_obs_eq. Qed.
+
+Theorem C16_aseeds_expansion_blind_to_reclaim : forall (fuel : nat) (N : net) (cfg : config) (d d' : sd) (sz : option nat) (min_tape : list space) (tape : list (list nat)), obs_eq d d' -> rel2 (expand_aseeds fuel N cfg d sz min_tape tape) (expand_aseeds fuel N cfg d' sz min_tape tape).
+Proof. exact expand_aseeds_obs_eq. Qed.
+
+Theorem C16_scc_expansion_blind_to_reclaim : forall (fuel : nat) (N : net) (cfg : config) (d d' : sd) (maa : bool) (tape : tape_t), obs_eq d d' -> rel2 (expand_scc fuel N cfg d maa tape) (expand_scc fuel N cfg d' maa tape).
+Proof. exact expand_scc_obs_eq. Qed.
+
+Theorem C16_block_after_reclaim : forall (fuel : nat) (N : net) (cfg : config) (d : sd) (maa opt : bool) (sz : option nat) (tape : list bool), rel2 (expand_block fuel N cfg d maa opt sz tape) (expand_block fuel N cfg (reclaim d) maa opt sz tape).
+Proof. exact expand_block_after_reclaim. Qed.
+
+Theorem C16_aseeds_after_reclaim : forall (fuel : nat) (N : net) (cfg : config) (d : sd) (sz : option nat) (min_tape : list space) (tape : list (list nat)), rel2 (expand_aseeds fuel N cfg d sz min_tape tape) (expand_aseeds fuel N cfg (reclaim d) sz min_tape tape).
+Proof. exact expand_aseeds_after_reclaim. Qed.
+
+Theorem C16_scc_after_reclaim : forall (fuel : nat) (N : net) (cfg : config) (d : sd) (maa : bool) (tape : tape_t), rel2 (expand_scc fuel N cfg d maa tape) (expand_scc fuel N cfg (reclaim d) maa tape).
+Proof. exact expand_scc_after_reclaim. Qed.
+
 Print Assumptions C16_reclaim_transparent.
 Print Assumptions C16_step_respects_observation.
 Print Assumptions C16_reclaim_obs_eq.
@@ -43,3 +62,9 @@ Print Assumptions C16_reclaim_keeps_wellformed.
 Print Assumptions C16_reclaim_CacheOK.
 Print Assumptions C16_reclaim_extends.
 Print Assumptions C16_step_extends.
+Print Assumptions C16_block_expansion_blind_to_reclaim.
+Print Assumptions C16_aseeds_expansion_blind_to_reclaim.
+Print Assumptions C16_scc_expansion_blind_to_reclaim.
+Print Assumptions C16_block_after_reclaim.
+Print Assumptions C16_aseeds_after_reclaim.
+Print Assumptions C16_scc_after_reclaim.
